@@ -1,150 +1,913 @@
-(** C18 — proofs about the FSNode metadata model [M_C18]. *)
+(** C18 — part B of the proofs: the FSNode model [M_C18] refines the abstract
+    metadata specification for every history, through every serialisation. *)
 From Coq Require Import List ZArith Bool Lia.
-From V Require Import lib.Verdict lib.GoInt lib.Varint lib.Pb lib.UnixFsPb gen.Gen_C18 model.M_C18.
+From V Require Import lib.Verdict lib.GoInt lib.Varint lib.Pb lib.UnixFsPb gen.Gen_C18 model.M_C18
+  proofs.P_C18_perm.
 Import ListNotations.
 Open Scope Z_scope.
 
+(** ---------- mask arithmetic (constants only, no bit blasting) ---------- *)
+Lemma land_small : forall p, 0 <= p < 4096 -> Z.land p 4095 = p.
+Proof. intros p H. change 4095 with (Z.ones 12). rewrite Z.land_ones by lia. apply Z.mod_small. exact H. Qed.
+
+Lemma land_4095_range : forall a, 0 <= Z.land a 4095 < 4096.
+Proof. intro a. pose proof (land_le_r a 4095 ltac:(lia)). lia. Qed.
+
+Lemma lor_ext_perm_low : forall a u,
+  Z.land (Z.lor (Z.land a ext_mask) (Z.land u 4095)) 4095 = Z.land u 4095.
+Proof.
+  intros. rewrite Z.land_lor_distr_l, <- !Z.land_assoc.
+  change (Z.land ext_mask 4095) with 0. change (Z.land 4095 4095) with 4095.
+  rewrite Z.land_0_r, Z.lor_0_l. reflexivity.
+Qed.
+
+Lemma lor_ext_perm_high : forall a u,
+  Z.land (Z.lor (Z.land a ext_mask) (Z.land u 4095)) ext_mask = Z.land a ext_mask.
+Proof.
+  intros. rewrite Z.land_lor_distr_l, <- !Z.land_assoc.
+  change (Z.land ext_mask ext_mask) with ext_mask. change (Z.land 4095 ext_mask) with 0.
+  rewrite Z.land_0_r, Z.lor_0_r. reflexivity.
+Qed.
+
+Lemma u32_bound_land : forall a c, 0 <= c < two32 -> 0 <= Z.land a c < two32.
+Proof. intros a c H. pose proof (land_le_r a c ltac:(lia)). lia. Qed.
+
+Lemma lor_u32 : forall a b, 0 <= a < two32 -> 0 <= b < two32 -> 0 <= Z.lor a b < two32.
+Proof. intros a b Ha Hb. change two32 with (2 ^ 32) in *. apply lor_bound; lia. Qed.
+
+(** the shifted extended word [(x << 12)] in uint32 *)
+Definition ext_word (x : Z) : Z := (x * 4096) mod two32.
+
+Lemma ext_word_eq : forall x, ext_word x = 4096 * (x mod 1048576).
+Proof.
+  intro x. unfold ext_word. change two32 with (1048576 * 4096).
+  rewrite Z.mul_mod_distr_r by lia. lia.
+Qed.
+
+Lemma ext_word_range : forall x, 0 <= ext_word x < two32.
+Proof. intro x. unfold ext_word. apply Z.mod_pos_bound. reflexivity. Qed.
+
+Lemma ext_word_low : forall x, Z.land (ext_word x) 4095 = 0.
+Proof.
+  intro x. rewrite ext_word_eq. change 4095 with (Z.ones 12). rewrite Z.land_ones by lia.
+  change (2 ^ 12) with 4096. rewrite Z.mul_comm. apply Z.mod_mul. lia.
+Qed.
+
+Lemma ext_word_high : forall x, Z.land (ext_word x) ext_mask = ext_word x.
+Proof.
+  intro x. pose proof (ext_word_range x) as R.
+  assert (E : Z.land (ext_word x) (Z.ones 32) = ext_word x).
+  { rewrite Z.land_ones by lia. apply Z.mod_small. exact R. }
+  change (Z.ones 32) with (Z.lor ext_mask 4095) in E.
+  rewrite Z.land_lor_distr_r, ext_word_low, Z.lor_0_r in E. exact E.
+Qed.
+
+Lemma ext_word_shift : forall x, Z.shiftr (ext_word x) 12 = Z.land x 1048575.
+Proof.
+  intro x. rewrite ext_word_eq, Z.shiftr_div_pow2 by lia. change (2 ^ 12) with 4096.
+  rewrite Z.mul_comm, Z.div_mul by lia.
+  change 1048575 with (Z.ones 20). rewrite Z.land_ones by lia. reflexivity.
+Qed.
+
+(** ---------- what Mode() shows of the stored word ---------- *)
+Definition perm_of (d : data) : Z := Z.land (get_mode d) 4095.
+
+Lemma typebits_off : forall a,
+  Z.land (Z.lor a ModeDir) perm_mask = Z.land a perm_mask /\
+  Z.land (Z.lor a ModeSymlink) perm_mask = Z.land a perm_mask.
+Proof.
+  intro a. rewrite !Z.land_lor_distr_l.
+  change (Z.land ModeDir perm_mask) with 0. change (Z.land ModeSymlink perm_mask) with 0.
+  rewrite Z.lor_0_r. split; reflexivity.
+Qed.
+
+(** the permission bits of Mode() are the spread of the 12 low stored bits *)
+Lemma mode_of_perm_bits : forall d, Z.land (mode_of d) perm_mask = spread (perm_of d).
+Proof.
+  intro d. unfold mode_of. fold (perm_of d).
+  pose proof (land_4095_range (get_mode d)) as R. fold (perm_of d) in R.
+  destruct (Z.eqb_spec (perm_of d) 0) as [E|E].
+  - rewrite E. reflexivity.
+  - destruct (perm_word (perm_of d) R) as (_ & Hs & Hm).
+    destruct ((get_type d =? TDirectory) || (get_type d =? THAMTShard)).
+    + rewrite (proj1 (typebits_off _)), Hm. exact Hs.
+    + destruct (get_type d =? TSymlink).
+      * rewrite (proj2 (typebits_off _)), Hm. exact Hs.
+      * rewrite Hm. exact Hs.
+Qed.
+
+(** ---------- frame facts of the record updaters ---------- *)
+Ltac dd d := destruct d as [ty da fs bl ht fo mo mt].
+
+Lemma set_mode_unix_perm : forall u d, perm_of (set_mode_unix u d) = Z.land u 4095.
+Proof.
+  intros u d. unfold set_mode_unix, perm_of.
+  destruct (Z.eqb_spec u 0) as [->|Hu]; cbn [andb].
+  - destruct (Z.eqb_spec (Z.land (Z.lor (Z.land (get_mode d) ext_mask) (Z.land 0 4095)) ext_mask) 0).
+    + dd d. reflexivity.
+    + dd d. cbn [with_mode get_mode d_mode opt0]. apply lor_ext_perm_low.
+  - dd d. cbn [with_mode get_mode d_mode opt0]. apply lor_ext_perm_low.
+Qed.
+
+Lemma set_mode_unix_ext : forall u d, extended_mode (set_mode_unix u d) = extended_mode d.
+Proof.
+  intros u d. unfold set_mode_unix, extended_mode.
+  destruct (Z.eqb_spec u 0) as [->|Hu]; cbn [andb].
+  - destruct (Z.eqb_spec (Z.land (Z.lor (Z.land (get_mode d) ext_mask) (Z.land 0 4095)) ext_mask) 0) as [E|E].
+    + rewrite lor_ext_perm_high in E. rewrite E. dd d. reflexivity.
+    + dd d. cbn [with_mode get_mode d_mode opt0]. rewrite lor_ext_perm_high. reflexivity.
+  - dd d. cbn [with_mode get_mode d_mode opt0]. rewrite lor_ext_perm_high. reflexivity.
+Qed.
+
+Lemma set_ext_perm : forall x d, perm_of (set_extended_mode x d) = perm_of d.
+Proof.
+  intros x d. unfold set_extended_mode, perm_of. fold (ext_word x).
+  assert (L : Z.land (Z.lor (ext_word x) (Z.land 4095 (get_mode d))) 4095 = Z.land (get_mode d) 4095).
+  { rewrite Z.land_lor_distr_l, ext_word_low, Z.lor_0_l, (Z.land_comm 4095), <- Z.land_assoc.
+    reflexivity. }
+  destruct (Z.eqb_spec (Z.lor (ext_word x) (Z.land 4095 (get_mode d))) 0) as [E|E].
+  - rewrite E in L. rewrite <- L. dd d. reflexivity.
+  - dd d. cbn [with_mode get_mode d_mode opt0] in *. exact L.
+Qed.
+
+Lemma set_ext_ext : forall x d, extended_mode (set_extended_mode x d) = Z.land x 1048575.
+Proof.
+  intros x d. unfold set_extended_mode, extended_mode. fold (ext_word x).
+  assert (L : Z.land (Z.lor (ext_word x) (Z.land 4095 (get_mode d))) ext_mask = ext_word x).
+  { rewrite Z.land_lor_distr_l, ext_word_high, <- Z.land_assoc, (Z.land_comm (get_mode d)), Z.land_assoc.
+    change (Z.land 4095 ext_mask) with 0. rewrite Z.land_0_l, Z.lor_0_r. reflexivity. }
+  destruct (Z.eqb_spec (Z.lor (ext_word x) (Z.land 4095 (get_mode d))) 0) as [E|E].
+  - rewrite E in L. change (Z.land 0 ext_mask) with 0 in L. rewrite <- ext_word_shift, <- L.
+    dd d. reflexivity.
+  - dd d. cbn [with_mode get_mode d_mode opt0] in *. rewrite L. apply ext_word_shift.
+Qed.
+
+Lemma set_mode_unix_mode_range : forall u d, 0 <= get_mode d < two32 ->
+  0 <= get_mode (set_mode_unix u d) < two32.
+Proof.
+  intros u d R. unfold set_mode_unix.
+  assert (B : 0 <= Z.lor (Z.land (get_mode d) ext_mask) (Z.land u 4095) < two32).
+  { apply lor_u32; apply u32_bound_land; unfold two32, ext_mask; lia. }
+  destruct ((u =? 0) && _); dd d; cbn [with_mode get_mode d_mode opt0] in *; [unfold two32; lia|exact B].
+Qed.
+
+Lemma set_ext_mode_range : forall x d, 0 <= get_mode (set_extended_mode x d) < two32.
+Proof.
+  intros x d. unfold set_extended_mode. fold (ext_word x).
+  assert (B : 0 <= Z.lor (ext_word x) (Z.land 4095 (get_mode d)) < two32).
+  { apply lor_u32; [apply ext_word_range|].
+    rewrite Z.land_comm. apply u32_bound_land. unfold two32. lia. }
+  destruct (_ =? 0); dd d; cbn [with_mode get_mode d_mode opt0] in *; [unfold two32; lia|exact B].
+Qed.
+
+(** ---------- modification time ---------- *)
+Definition wf_gtime (t : gtime) : Prop := - two63 <= fst t < two63 /\ 0 <= snd t < 1000000000.
+
+Lemma mod_time_set : forall t d, wf_gtime t ->
+  mod_time (set_mod_time t d) = if is_zero t then zero_time else t.
+Proof.
+  intros [s n] d [Hs Hn]. cbn [fst snd] in *. unfold set_mod_time.
+  destruct (is_zero (s, n)); [dd d; reflexivity|].
+  cbn [fst snd]. destruct (Z.ltb_spec 0 n) as [Hp|Hz].
+  - dd d. unfold mod_time. cbn [with_mtime d_mtime t_sec t_nanos].
+    destruct (Z.ltb_spec n 1); [lia|]. destruct (Z.ltb_spec 999999999 n); [lia|]. reflexivity.
+  - dd d. unfold mod_time. cbn [with_mtime d_mtime t_sec t_nanos].
+    replace n with 0 by lia. reflexivity.
+Qed.
+
+(** zero time in = unset = zero time out, and nothing else reads as zero *)
+Lemma mod_time_zero_iff : forall t d, wf_gtime t ->
+  is_zero (mod_time (set_mod_time t d)) = is_zero t.
+Proof.
+  intros t d H. rewrite mod_time_set by exact H.
+  destruct (is_zero t) eqn:E; [reflexivity|exact E].
+Qed.
+
+(** ---------- well-formedness is preserved ---------- *)
+Definition wf_optdata (b : option (list Z)) : Prop :=
+  match b with Some l => blen l < two64 | None => True end.
+
+Lemma wf_with_data : forall d b, wf_data d -> wf_optdata b -> wf_data (with_data d b).
+Proof. intros d b H Hb. dd d. unfold wf_data in *. cbn in *. tauto. Qed.
+Lemma wf_with_filesize : forall d x, wf_data d -> in_opt in_u64 x -> wf_data (with_filesize d x).
+Proof. intros d b H Hb. dd d. unfold wf_data in *. cbn in *. tauto. Qed.
+Lemma wf_with_blocks : forall d x, wf_data d -> Forall in_u64 x -> wf_data (with_blocks d x).
+Proof. intros d b H Hb. dd d. unfold wf_data in *. cbn in *. tauto. Qed.
+Lemma wf_with_mode : forall d x, wf_data d -> in_opt (fun m => 0 <= m < two32) x -> wf_data (with_mode d x).
+Proof. intros d b H Hb. dd d. unfold wf_data in *. cbn in *. tauto. Qed.
+Lemma wf_with_mtime : forall d x, wf_data d ->
+  match x with Some t => wf_mtime t | None => True end -> wf_data (with_mtime d x).
+Proof. intros d b H Hb. dd d. unfold wf_data in *. cbn in *. tauto. Qed.
+Lemma wf_with_type : forall d x, wf_data d -> in_opt (fun t => - two31 <= t < two31) x -> wf_data (with_type d x).
+Proof. intros d b H Hb. dd d. unfold wf_data in *. cbn in *. tauto. Qed.
+Lemma wf_with_hash_fanout : forall d h f, wf_data d -> in_opt in_u64 h -> in_opt in_u64 f ->
+  wf_data (with_hash_fanout d h f).
+Proof. intros d h f H Hh Hf. dd d. unfold wf_data in *. cbn in *. tauto. Qed.
+
+Lemma wf_update_filesize : forall diff d, wf_data d -> wf_data (update_filesize diff d).
+Proof. intros. unfold update_filesize. apply wf_with_filesize; [assumption|]. apply to_u64_range. Qed.
+
+Lemma wf_empty : wf_data empty_data.
+Proof. unfold wf_data. cbn. repeat split; auto. Qed.
+
+Lemma wf_mode_range : forall d, wf_data d -> 0 <= get_mode d < two32.
+Proof.
+  intros d H. dd d. unfold wf_data in H. cbn in *. destruct H as (_ & _ & _ & _ & _ & _ & Hm & _).
+  destruct mo; cbn in *; [exact Hm|unfold two32; lia].
+Qed.
+
+Lemma wf_data_len : forall d, wf_data d -> 0 <= blen (get_data d) < two64.
+Proof.
+  intros d H. dd d. unfold wf_data in H. cbn in *. destruct H as (_ & Hd & _).
+  destruct da; cbn; [pose proof (blen_nonneg l); lia|unfold two64; lia].
+Qed.
+
+(** ---------- [initialized] is preserved ---------- *)
+Lemma init_with_data : forall d x, initialized (with_data d x) = initialized d.
+Proof. intros; dd d; reflexivity. Qed.
+Lemma init_with_filesize : forall d x, initialized (with_filesize d x) = initialized d.
+Proof. intros; dd d; reflexivity. Qed.
+Lemma init_with_blocks : forall d x, initialized (with_blocks d x) = initialized d.
+Proof. intros; dd d; reflexivity. Qed.
+Lemma init_with_mode : forall d x, initialized (with_mode d x) = initialized d.
+Proof. intros; dd d; reflexivity. Qed.
+Lemma init_with_hash_fanout : forall d h f, initialized (with_hash_fanout d h f) = initialized d.
+Proof. intros; dd d; reflexivity. Qed.
+
+(** ---------- sums ---------- *)
+Lemma sum_list_app : forall a b, sum_list (a ++ b) = sum_list a + sum_list b.
+Proof.
+  unfold sum_list. induction a as [|x a IH]; intro b; cbn [app fold_right]; [reflexivity|].
+  rewrite IH. lia.
+Qed.
+
+Lemma sum_remove_nth : forall i l x, nth_error l i = Some x ->
+  sum_list (remove_nth i l) = sum_list l - x.
+Proof.
+  unfold sum_list.
+  induction i as [|i IH]; intros [|y l] x E; cbn [nth_error] in E; try discriminate.
+  - injection E as ->. cbn [remove_nth fold_right]. lia.
+  - cbn [remove_nth fold_right]. rewrite (IH l x E). lia.
+Qed.
+
+Lemma Forall_remove_nth : forall {A} (P : A -> Prop) i l, Forall P l -> Forall P (remove_nth i l).
+Proof.
+  induction i as [|i IH]; intros [|y l] H; cbn [remove_nth]; try constructor.
+  - inversion H; assumption.
+  - inversion H; assumption.
+  - apply IH. inversion H; assumption.
+Qed.
+
+Lemma to_u64_add_l : forall a b, to_u64 (to_u64 a + b) = to_u64 (a + b).
+Proof. intros. unfold to_u64. apply Z.add_mod_idemp_l. unfold two64. lia. Qed.
+
+Lemma to_i64_congr : forall x, to_u64 (to_i64 x) = to_u64 x.
+Proof.
+  intro x. unfold to_i64, to_u64. destruct (x mod two64 <? two63).
+  - apply Z.mod_mod. unfold two64. lia.
+  - rewrite <- (Z.mod_add _ 1) by (unfold two64; lia).
+    replace (x mod two64 - two64 + 1 * two64) with (x mod two64) by lia.
+    apply Z.mod_mod. unfold two64. lia.
+Qed.
+
+Lemma to_u64_add_i64 : forall a x, to_u64 (a + to_i64 x) = to_u64 (a + x).
+Proof.
+  intros. unfold to_u64. rewrite <- Z.add_mod_idemp_r by (unfold two64; lia).
+  fold (to_u64 (to_i64 x)). rewrite to_i64_congr. unfold to_u64.
+  rewrite Z.add_mod_idemp_r by (unfold two64; lia). reflexivity.
+Qed.
+
+Lemma to_u64_sub_i64 : forall a x, to_u64 (a + - to_i64 x) = to_u64 (a - x).
+Proof.
+  intros. unfold to_u64.
+  replace (a + - to_i64 x) with (a - to_i64 x) by lia.
+  rewrite Zminus_mod, (Zminus_mod a x).
+  fold (to_u64 (to_i64 x)). rewrite to_i64_congr. reflexivity.
+Qed.
+
+Lemma to_u64_idem : forall a, to_u64 (to_u64 a) = to_u64 a.
+Proof. intro. unfold to_u64. apply Z.mod_mod. unfold two64. lia. Qed.
+
 (** ================================================================
-    Part A — the translated permission shuffles (files/util.go)
+    The invariant linking a node to the abstract metadata
     ================================================================ *)
+Record inv (d : data) (s : sstate) : Prop := {
+  i_wf : wf_data d;
+  i_init : initialized d = true;
+  i_type : get_type d = s_type s;
+  i_perm : spread (perm_of d) = s_perm s;
+  i_ext : extended_mode d = s_ext s;
+  i_time : mod_time d = s_time s;
+  i_len : blen (get_data d) = s_datalen s;
+  i_blocks : d_blocksizes d = s_blocks s;
+  i_size : s_sized s = true -> get_filesize d = to_u64 (s_datalen s + sum_list (s_blocks s))
+}.
 
-(** ---------- the 4096 permission words, exhaustively ---------- *)
-Fixpoint zrange (n : nat) : list Z :=
-  match n with O => [] | S n' => zrange n' ++ [Z.of_nat n'] end.
-
-Lemma zrange_in : forall n z, 0 <= z < Z.of_nat n -> In z (zrange n).
-Proof.
-  induction n as [|n IH]; intros z H; [lia|].
-  cbn [zrange]. apply in_or_app. destruct (Z.eq_dec z (Z.of_nat n)) as [->|Hne].
-  - right. left. reflexivity.
-  - left. apply IH. lia.
-Qed.
-
-Definition perm_sweep : bool :=
-  forallb (fun p => (ModePermsToUnixPerms (UnixPermsToModePerms p) =? p) &&
-                    (UnixPermsToModePerms p =? spread p) &&
-                    (Z.land (UnixPermsToModePerms p) perm_mask =? UnixPermsToModePerms p))
-          (zrange 4096).
-
-Lemma perm_sweep_ok : perm_sweep = true.
-Proof. vm_compute. reflexivity. Qed.
-
-Lemma perm_word : forall p, 0 <= p < 4096 ->
-  ModePermsToUnixPerms (UnixPermsToModePerms p) = p /\
-  UnixPermsToModePerms p = spread p /\
-  Z.land (UnixPermsToModePerms p) perm_mask = UnixPermsToModePerms p.
-Proof.
-  intros p H. pose proof perm_sweep_ok as S. unfold perm_sweep in S.
-  rewrite forallb_forall in S. specialize (S p (zrange_in 4096 p H)).
-  apply andb_true_iff in S. destruct S as [S S3]. apply andb_true_iff in S. destruct S as [S1 S2].
-  apply Z.eqb_eq in S1, S2, S3. auto.
-Qed.
-
-Lemma unix_of_mode_of_unix : forall p, 0 <= p < 4096 ->
-  ModePermsToUnixPerms (UnixPermsToModePerms p) = p.
-Proof. intros p H. apply perm_word. assumption. Qed.
-
-(** ---------- bit-level semantics of the uint32 operators of GoInt ---------- *)
-Lemma tb_wrap32 : forall z i, 0 <= i -> Z.testbit (wrap U32 z) i = Z.testbit z i && (i <? 32).
-Proof.
-  intros z i Hi. rewrite wrap_unsigned by reflexivity. change (bits U32) with 32.
-  destruct (Z.ltb_spec i 32).
-  - rewrite Z.mod_pow2_bits_low by lia. rewrite andb_true_r. reflexivity.
-  - rewrite Z.mod_pow2_bits_high by lia. rewrite andb_false_r. reflexivity.
-Qed.
-
-Lemma tb_and : forall a b i, 0 <= i ->
-  Z.testbit (and_ U32 a b) i = Z.testbit a i && Z.testbit b i && (i <? 32).
-Proof. intros. unfold and_. rewrite tb_wrap32, Z.land_spec by assumption. reflexivity. Qed.
-
-Lemma tb_or : forall a b i, 0 <= i ->
-  Z.testbit (or_ U32 a b) i = (Z.testbit a i || Z.testbit b i) && (i <? 32).
-Proof. intros. unfold or_. rewrite tb_wrap32, Z.lor_spec by assumption. reflexivity. Qed.
-
-Lemma tb_conv : forall t x i, 0 <= i ->
-  Z.testbit (conv t U32 x) i = Z.testbit x i && (i <? 32).
-Proof. intros. unfold conv. apply tb_wrap32. assumption. Qed.
-
-Lemma tb_shr : forall x n i, 0 <= n < 32 -> 0 <= i ->
-  Z.testbit (shr U32 x n) i = Z.testbit x (i + n) && (i <? 32).
-Proof.
-  intros x n i Hn Hi. unfold shr. change (bits U32) with 32.
-  destruct (Z.leb_spec 0 n); [|lia]. destruct (Z.ltb_spec n 32); [|lia]. cbn [andb].
-  rewrite tb_wrap32, Z.shiftr_spec by assumption. reflexivity.
-Qed.
-
-Lemma tb_shl_hi : forall x n i, 0 <= n < 32 -> n <= i ->
-  Z.testbit (shl U32 x n) i = Z.testbit x (i - n) && (i <? 32).
-Proof.
-  intros x n i Hn Hi. rewrite shl_spec by (change (bits U32) with 32; lia).
-  rewrite tb_wrap32 by lia. rewrite <- Z.shiftl_mul_pow2 by lia.
-  rewrite Z.shiftl_spec by lia. reflexivity.
-Qed.
-
-Lemma tb_shl_lo : forall x n i, 0 <= n < 32 -> 0 <= i < n ->
-  Z.testbit (shl U32 x n) i = false.
-Proof.
-  intros x n i Hn Hi. rewrite shl_spec by (change (bits U32) with 32; lia).
-  rewrite tb_wrap32 by lia. rewrite <- Z.shiftl_mul_pow2 by lia.
-  rewrite Z.shiftl_spec by lia. rewrite Z.testbit_neg_r by lia. reflexivity.
-Qed.
-
-Lemma tb_const_hi : forall c k i, 0 <= c < 2 ^ k -> 0 <= k <= i -> Z.testbit c i = false.
-Proof.
-  intros c k i Hc Hk. destruct (Z.eq_dec c 0) as [->|Hnz]; [apply Z.bits_0|].
-  apply Z.bits_above_log2; [lia|].
-  assert (Z.log2 c < k) by (apply Z.log2_lt_pow2; lia). lia.
-Qed.
-
-Lemma lt_pow2_of_bits : forall a n, 0 <= a -> 0 <= n ->
-  (forall i, n <= i -> Z.testbit a i = false) -> a < 2 ^ n.
-Proof.
-  intros a n Ha Hn H.
-  assert (E : a = a mod 2 ^ n).
-  { apply Z.bits_inj'. intros i Hi. destruct (Z_lt_le_dec i n).
-    - rewrite Z.mod_pow2_bits_low by lia. reflexivity.
-    - rewrite Z.mod_pow2_bits_high by lia. apply H. lia. }
-  rewrite E. apply Z.mod_pos_bound. apply Z.pow_pos_nonneg; lia.
-Qed.
-
-Lemma lt32_cases : forall i, 0 <= i < 32 -> i = 0 \/ i = 1 \/ i = 2 \/ i = 3 \/ i = 4 \/ i = 5 \/ i = 6 \/ i = 7 \/ i = 8 \/ i = 9 \/ i = 10 \/ i = 11 \/ i = 12 \/ i = 13 \/ i = 14 \/ i = 15 \/ i = 16 \/ i = 17 \/ i = 18 \/ i = 19 \/ i = 20 \/ i = 21 \/ i = 22 \/ i = 23 \/ i = 24 \/ i = 25 \/ i = 26 \/ i = 27 \/ i = 28 \/ i = 29 \/ i = 30 \/ i = 31.
-Proof. intros. lia. Qed.
-
-(** rewrite a testbit of a tree of uint32 operators at a LITERAL index down to
-    testbits of its leaves *)
-Ltac tbnorm :=
-  repeat first
-    [ rewrite tb_or by lia | rewrite tb_and by lia | rewrite tb_shr by lia
-    | rewrite tb_shl_hi by lia | rewrite tb_shl_lo by lia | rewrite tb_conv by lia
-    | rewrite Z.land_spec | rewrite Z.lor_spec ].
-
-(** [if p == 0 then 0 else G p] is [G p] when [G 0 = 0] *)
-Lemma if_zero : forall (G : Z -> Z) p, G 0 = 0 -> (if Z.eqb p 0 then 0 else G p) = G p.
-Proof. intros G p H. destruct (Z.eqb_spec p 0) as [->|]; [symmetry; exact H|reflexivity]. Qed.
-
-(** FileMode -> unix word -> FileMode keeps exactly the permission bits, for
-    every uint32 (indeed every integer) *)
-Lemma mode_of_unix_of_mode : forall m,
-  UnixPermsToModePerms (ModePermsToUnixPerms m) = Z.land m perm_mask.
-Proof.
-  intro m. remember (ModePermsToUnixPerms m) as p eqn:Hp.
-  unfold UnixPermsToModePerms.
-  match goal with |- (if Z.eqb p 0 then 0 else ?e) = _ =>
-    transitivity e;
-    [destruct (Z.eqb_spec p 0) as [Hz|_]; [clear Hp; rewrite Hz; reflexivity|reflexivity]|]
+Definition wf_op (o : op) : Prop :=
+  match o with
+  | OSetData b => wf_optdata b
+  | OAddBlock x => in_u64 x
+  | OSetModTime t => wf_gtime t
+  | _ => True
   end.
-  subst p.
-  unfold ModePermsToUnixPerms.
-  apply Z.bits_inj'. intros i Hi.
-  destruct (Z_lt_le_dec i 32) as [Hlt|Hge].
-  - pose (f := Z.testbit m).
-    destruct (lt32_cases i (conj Hi Hlt)) as [?|[?|[?|[?|[?|[?|[?|[?|[?|[?|[?|[?|[?|[?|[?|[?|[?|[?|[?|[?|[?|[?|[?|[?|[?|[?|[?|[?|[?|[?|[?|?]]]]]]]]]]]]]]]]]]]]]]]]]]]]]]]; subst i; tbnorm;
-      repeat match goal with |- context [Z.testbit m ?k] => change (Z.testbit m k) with (f k) end;
-      clearbody f; vm_compute;
-      repeat match goal with |- context [f ?k] => destruct (f k) end; reflexivity.
-  - rewrite tb_or by lia. rewrite Z.land_spec.
-    assert (Hpm : 0 <= perm_mask < 2 ^ 32)
-      by (unfold perm_mask; change (2 ^ 32) with 4294967296; lia).
-    rewrite (tb_const_hi perm_mask 32 i Hpm) by lia.
-    destruct (Z.ltb_spec i 32); [lia|]. rewrite !andb_false_r. reflexivity.
+
+(** accessors that ignore the fields an updater touches *)
+Lemma frame_filesize : forall d x,
+  get_type (with_filesize d x) = get_type d /\ perm_of (with_filesize d x) = perm_of d /\
+  extended_mode (with_filesize d x) = extended_mode d /\ mod_time (with_filesize d x) = mod_time d /\
+  get_data (with_filesize d x) = get_data d /\ d_blocksizes (with_filesize d x) = d_blocksizes d /\
+  get_filesize (with_filesize d x) = opt0 x.
+Proof. intros; dd d; repeat split. Qed.
+Lemma frame_data : forall d x,
+  get_type (with_data d x) = get_type d /\ perm_of (with_data d x) = perm_of d /\
+  extended_mode (with_data d x) = extended_mode d /\ mod_time (with_data d x) = mod_time d /\
+  d_blocksizes (with_data d x) = d_blocksizes d /\ get_filesize (with_data d x) = get_filesize d /\
+  get_data (with_data d x) = match x with Some b => b | None => [] end.
+Proof. intros; dd d; repeat split. Qed.
+Lemma frame_blocks : forall d x,
+  get_type (with_blocks d x) = get_type d /\ perm_of (with_blocks d x) = perm_of d /\
+  extended_mode (with_blocks d x) = extended_mode d /\ mod_time (with_blocks d x) = mod_time d /\
+  get_data (with_blocks d x) = get_data d /\ get_filesize (with_blocks d x) = get_filesize d /\
+  d_blocksizes (with_blocks d x) = x.
+Proof. intros; dd d; repeat split. Qed.
+Lemma frame_mode : forall d x,
+  get_type (with_mode d x) = get_type d /\ mod_time (with_mode d x) = mod_time d /\
+  get_data (with_mode d x) = get_data d /\ d_blocksizes (with_mode d x) = d_blocksizes d /\
+  get_filesize (with_mode d x) = get_filesize d.
+Proof. intros; dd d; repeat split. Qed.
+Lemma frame_mtime : forall d x,
+  get_type (with_mtime d x) = get_type d /\ perm_of (with_mtime d x) = perm_of d /\
+  extended_mode (with_mtime d x) = extended_mode d /\
+  get_data (with_mtime d x) = get_data d /\ d_blocksizes (with_mtime d x) = d_blocksizes d /\
+  get_filesize (with_mtime d x) = get_filesize d.
+Proof. intros; dd d; repeat split. Qed.
+
+Lemma frame_set_mode_unix : forall u d,
+  get_type (set_mode_unix u d) = get_type d /\ mod_time (set_mode_unix u d) = mod_time d /\
+  get_data (set_mode_unix u d) = get_data d /\ d_blocksizes (set_mode_unix u d) = d_blocksizes d /\
+  get_filesize (set_mode_unix u d) = get_filesize d /\
+  initialized (set_mode_unix u d) = initialized d.
+Proof.
+  intros u d. unfold set_mode_unix. destruct (_ && _);
+    (repeat split; try apply frame_mode; apply init_with_mode).
+Qed.
+Lemma frame_set_ext : forall x d,
+  get_type (set_extended_mode x d) = get_type d /\ mod_time (set_extended_mode x d) = mod_time d /\
+  get_data (set_extended_mode x d) = get_data d /\ d_blocksizes (set_extended_mode x d) = d_blocksizes d /\
+  get_filesize (set_extended_mode x d) = get_filesize d /\
+  initialized (set_extended_mode x d) = initialized d.
+Proof.
+  intros x d. unfold set_extended_mode. destruct (_ =? 0);
+    (repeat split; try apply frame_mode; apply init_with_mode).
+Qed.
+
+Lemma wf_set_mode_unix : forall u d, wf_data d -> wf_data (set_mode_unix u d).
+Proof.
+  intros u d H. pose proof (set_mode_unix_mode_range u d (wf_mode_range d H)) as R.
+  unfold set_mode_unix in *. destruct (_ && _).
+  - apply wf_with_mode; [exact H|exact I].
+  - apply wf_with_mode; [exact H|]. dd d. cbn [with_mode get_mode d_mode opt0 in_opt] in *. exact R.
+Qed.
+Lemma wf_set_ext : forall x d, wf_data d -> wf_data (set_extended_mode x d).
+Proof.
+  intros x d H. pose proof (set_ext_mode_range x d) as R.
+  unfold set_extended_mode in *. destruct (_ =? 0).
+  - apply wf_with_mode; [exact H|exact I].
+  - apply wf_with_mode; [exact H|]. dd d. cbn [with_mode get_mode d_mode opt0 in_opt] in *. exact R.
+Qed.
+
+(** FileMode in, permission bits out *)
+Lemma spread_unix_of_mode : forall m,
+  spread (Z.land (ModePermsToUnixPerms m) 4095) = Z.land m perm_mask.
+Proof.
+  intro m. pose proof (unix_perms_range m) as R. rewrite land_small by exact R.
+  destruct (perm_word _ R) as (_ & Hs & _). rewrite <- Hs. apply mode_of_unix_of_mode.
+Qed.
+
+(** every operation keeps the invariant *)
+Lemma step_inv : forall o d s s', inv d s -> wf_op o -> spec_step s o = Some s' ->
+  exists d', step d o = Some d' /\ inv d' s'.
+Proof.
+  intros o d s s' I W E. destruct I as [Iwf Iinit Ity Iperm Iext Itime Ilen Ibl Isz].
+  destruct o as [b|x|i| |diff|m|u|x|t| ]; cbn [spec_step step wf_op] in *.
+  - (* SetData *)
+    injection E as <-. eexists; split; [reflexivity|]. unfold set_data.
+    set (d1 := update_filesize _ d).
+    assert (W1 : wf_data d1) by (apply wf_update_filesize; exact Iwf).
+    destruct (frame_data d1 b) as (F1 & F2 & F3 & F4 & F5 & F6 & F7).
+    destruct (frame_filesize d (Some (to_u64 (get_filesize d +
+      (match b with Some l => blen l | None => 0 end - blen (get_data d)))))) as (G1 & G2 & G3 & G4 & G5 & G6 & G7).
+    fold (update_filesize (match b with Some l => blen l | None => 0 end - blen (get_data d)) d) in *.
+    fold d1 in G1, G2, G3, G4, G5, G6, G7.
+    constructor; cbn [s_type s_perm s_ext s_time s_datalen s_blocks s_sized].
+    + apply wf_with_data; assumption.
+    + rewrite init_with_data. unfold d1, update_filesize. rewrite init_with_filesize. exact Iinit.
+    + congruence.
+    + congruence.
+    + congruence.
+    + congruence.
+    + rewrite F7. destruct b; reflexivity.
+    + congruence.
+    + intro Hs. rewrite F6, G7. cbn [opt0]. rewrite (Isz Hs), Ilen.
+      rewrite to_u64_add_l. f_equal. lia.
+  - (* AddBlock *)
+    injection E as <-. eexists; split; [reflexivity|]. unfold add_blocksize.
+    set (d1 := update_filesize (to_i64 x) d).
+    assert (W1 : wf_data d1) by (apply wf_update_filesize; exact Iwf).
+    destruct (frame_blocks d1 (d_blocksizes d1 ++ [x])) as (F1 & F2 & F3 & F4 & F5 & F6 & F7).
+    destruct (frame_filesize d (Some (to_u64 (get_filesize d + to_i64 x)))) as (G1 & G2 & G3 & G4 & G5 & G6 & G7).
+    fold (update_filesize (to_i64 x) d) in *. fold d1 in G1, G2, G3, G4, G5, G6, G7.
+    constructor; cbn [s_type s_perm s_ext s_time s_datalen s_blocks s_sized].
+    + apply wf_with_blocks; [exact W1|]. rewrite G6. apply Forall_app. split.
+      * dd d. unfold wf_data in Iwf. cbn in *. tauto.
+      * constructor; [exact W|constructor].
+    + rewrite init_with_blocks. unfold d1, update_filesize. rewrite init_with_filesize. exact Iinit.
+    + congruence.
+    + congruence.
+    + congruence.
+    + congruence.
+    + rewrite F5, G5. exact Ilen.
+    + rewrite F7, G6, Ibl. reflexivity.
+    + intro Hs. rewrite F6, G7. cbn [opt0]. rewrite (Isz Hs), to_u64_add_l, to_u64_add_i64.
+      rewrite sum_list_app. cbn [sum_list fold_right]. f_equal. lia.
+  - (* RemoveBlock *)
+    rewrite <- Ibl in E. unfold remove_blocksize.
+    destruct (nth_error (d_blocksizes d) i) as [sz|] eqn:En; [|discriminate].
+    injection E as <-. eexists; split; [reflexivity|].
+    set (d1 := update_filesize (- to_i64 sz) d).
+    assert (W1 : wf_data d1) by (apply wf_update_filesize; exact Iwf).
+    destruct (frame_blocks d1 (remove_nth i (d_blocksizes d1))) as (F1 & F2 & F3 & F4 & F5 & F6 & F7).
+    destruct (frame_filesize d (Some (to_u64 (get_filesize d + - to_i64 sz)))) as (G1 & G2 & G3 & G4 & G5 & G6 & G7).
+    fold (update_filesize (- to_i64 sz) d) in *. fold d1 in G1, G2, G3, G4, G5, G6, G7.
+    constructor; cbn [s_type s_perm s_ext s_time s_datalen s_blocks s_sized].
+    + apply wf_with_blocks; [exact W1|]. rewrite G6. apply Forall_remove_nth.
+      dd d. unfold wf_data in Iwf. cbn in *. tauto.
+    + rewrite init_with_blocks. unfold d1, update_filesize. rewrite init_with_filesize. exact Iinit.
+    + congruence.
+    + congruence.
+    + congruence.
+    + congruence.
+    + rewrite F5, G5. exact Ilen.
+    + rewrite F7, G6. reflexivity.
+    + intro Hs. rewrite F6, G7. cbn [opt0]. rewrite (Isz Hs), to_u64_add_l, to_u64_sub_i64.
+      rewrite (sum_remove_nth i _ sz En), <- Ibl. f_equal. lia.
+  - (* RemoveAll *)
+    injection E as <-. eexists; split; [reflexivity|]. unfold remove_all_blocksizes.
+    destruct (frame_blocks d []) as (F1 & F2 & F3 & F4 & F5 & F6 & F7).
+    destruct (frame_filesize (with_blocks d []) (Some (blen (get_data d)))) as (G1 & G2 & G3 & G4 & G5 & G6 & G7).
+    constructor; cbn [s_type s_perm s_ext s_time s_datalen s_blocks s_sized].
+    + apply wf_with_filesize; [apply wf_with_blocks; [exact Iwf|constructor]|].
+      cbn [in_opt]. apply wf_data_len. exact Iwf.
+    + rewrite init_with_filesize, init_with_blocks. exact Iinit.
+    + congruence.
+    + congruence.
+    + congruence.
+    + congruence.
+    + rewrite G5, F5. exact Ilen.
+    + rewrite G6, F7. reflexivity.
+    + intros _. rewrite G7. cbn [opt0 sum_list fold_right]. rewrite Z.add_0_r, <- Ilen.
+      symmetry. apply to_u64_nonneg. apply wf_data_len. exact Iwf.
+  - (* UpdateFilesize *)
+    injection E as <-. eexists; split; [reflexivity|].
+    destruct (frame_filesize d (Some (to_u64 (get_filesize d + diff)))) as (G1 & G2 & G3 & G4 & G5 & G6 & G7).
+    fold (update_filesize diff d) in *.
+    constructor; cbn [s_type s_perm s_ext s_time s_datalen s_blocks s_sized].
+    + apply wf_update_filesize. exact Iwf.
+    + unfold update_filesize. rewrite init_with_filesize. exact Iinit.
+    + congruence.
+    + congruence.
+    + congruence.
+    + congruence.
+    + rewrite G5. exact Ilen.
+    + congruence.
+    + intro Hs. apply andb_true_iff in Hs. destruct Hs as [Hd Hs]. apply Z.eqb_eq in Hd. subst diff.
+      rewrite G7. cbn [opt0]. rewrite (Isz Hs), Z.add_0_r. apply to_u64_idem.
+  - (* SetMode *)
+    injection E as <-. eexists; split; [reflexivity|]. unfold set_mode.
+    destruct (frame_set_mode_unix (ModePermsToUnixPerms m) d) as (F1 & F2 & F3 & F4 & F5 & F6).
+    constructor; cbn [s_type s_perm s_ext s_time s_datalen s_blocks s_sized].
+    + apply wf_set_mode_unix. exact Iwf.
+    + congruence.
+    + congruence.
+    + rewrite set_mode_unix_perm. apply spread_unix_of_mode.
+    + rewrite set_mode_unix_ext. exact Iext.
+    + congruence.
+    + rewrite F3. exact Ilen.
+    + congruence.
+    + intro Hs. rewrite F5. exact (Isz Hs).
+  - (* SetModeFromUnixPermissions *)
+    injection E as <-. eexists; split; [reflexivity|].
+    destruct (frame_set_mode_unix u d) as (F1 & F2 & F3 & F4 & F5 & F6).
+    constructor; cbn [s_type s_perm s_ext s_time s_datalen s_blocks s_sized].
+    + apply wf_set_mode_unix. exact Iwf.
+    + congruence.
+    + congruence.
+    + rewrite set_mode_unix_perm. reflexivity.
+    + rewrite set_mode_unix_ext. exact Iext.
+    + congruence.
+    + rewrite F3. exact Ilen.
+    + congruence.
+    + intro Hs. rewrite F5. exact (Isz Hs).
+  - (* SetExtendedMode *)
+    injection E as <-. eexists; split; [reflexivity|].
+    destruct (frame_set_ext x d) as (F1 & F2 & F3 & F4 & F5 & F6).
+    constructor; cbn [s_type s_perm s_ext s_time s_datalen s_blocks s_sized].
+    + apply wf_set_ext. exact Iwf.
+    + congruence.
+    + congruence.
+    + rewrite set_ext_perm. exact Iperm.
+    + apply set_ext_ext.
+    + congruence.
+    + rewrite F3. exact Ilen.
+    + congruence.
+    + intro Hs. rewrite F5. exact (Isz Hs).
+  - (* SetModTime *)
+    injection E as <-. eexists; split; [reflexivity|].
+    pose proof (mod_time_set t d W) as MT.
+    unfold set_mod_time in *. destruct W as [Ws Wn].
+    destruct (is_zero t).
+    + destruct (frame_mtime d None) as (F1 & F2 & F3 & F4 & F5 & F6).
+      constructor; cbn [s_type s_perm s_ext s_time s_datalen s_blocks s_sized].
+      * apply wf_with_mtime; [exact Iwf|exact I].
+      * dd d. unfold initialized in *. cbn in *. rewrite andb_true_r.
+        apply andb_true_iff in Iinit. tauto.
+      * congruence.
+      * congruence.
+      * congruence.
+      * exact MT.
+      * rewrite F4. exact Ilen.
+      * congruence.
+      * intro Hs. rewrite F6. exact (Isz Hs).
+    + match goal with |- context [with_mtime d ?x] => destruct (frame_mtime d x) as (F1 & F2 & F3 & F4 & F5 & F6) end.
+      constructor; cbn [s_type s_perm s_ext s_time s_datalen s_blocks s_sized].
+      * apply wf_with_mtime; [exact Iwf|]. split; cbn [t_sec t_nanos in_opt]; [exact Ws|].
+        destruct (0 <? snd t); cbn [in_opt]; [unfold two32; lia|exact I].
+      * dd d. unfold initialized in *. cbn in *. rewrite andb_true_r.
+        apply andb_true_iff in Iinit. tauto.
+      * congruence.
+      * congruence.
+      * congruence.
+      * exact MT.
+      * rewrite F4. exact Ilen.
+      * congruence.
+      * intro Hs. rewrite F6. exact (Isz Hs).
+  - (* RoundTrip: serialisation changes nothing *)
+    injection E as <-. exists d. split.
+    + unfold encode_data. rewrite Iinit.
+      apply (decode_encode d); [exact Iwf|]. unfold encode_data. rewrite Iinit. reflexivity.
+    + constructor; assumption.
+Qed.
+
+Lemma run_inv : forall ops d s s', inv d s -> Forall wf_op ops -> spec_run s ops = Some s' ->
+  exists d', run d ops = Some d' /\ inv d' s'.
+Proof.
+  induction ops as [|o ops IH]; intros d s s' I W E; cbn [spec_run run] in *.
+  - injection E as <-. exists d. split; [reflexivity|exact I].
+  - inversion W as [|? ? Wo Wops]; subst.
+    destruct (spec_step s o) as [s1|] eqn:E1; [|discriminate].
+    destruct (step_inv o d s s1 I Wo E1) as (d1 & S1 & I1). rewrite S1.
+    apply (IH d1 s1 s' I1 Wops E).
+Qed.
+
+(** the invariant gives the read-back clauses of the property *)
+Lemma inv_meets : forall d s, inv d s -> meets s (view_of d) = true.
+Proof.
+  intros d s [Iwf Iinit Ity Iperm Iext Itime Ilen Ibl Isz]. unfold meets, view_of.
+  cbn [v_mode v_ext v_time v_tzero v_size].
+  rewrite mode_of_perm_bits, Iperm, Iext, Itime, !Z.eqb_refl.
+  unfold gtime_eqb. rewrite !Z.eqb_refl, eqb_reflx. cbn [andb].
+  unfold file_size, size_of. rewrite Ity.
+  destruct (Z.eqb_spec (s_type s) TFile) as [E|E]; cbn [orb].
+  - destruct (s_sized s) eqn:Hs; [|reflexivity].
+    rewrite E. cbn. rewrite (Isz eq_refl). apply Z.eqb_refl.
+  - destruct (Z.eqb_spec (s_type s) TRaw) as [E2|E2].
+    + destruct (s_sized s) eqn:Hs; [|reflexivity].
+      rewrite E2. cbn. rewrite (Isz eq_refl). apply Z.eqb_refl.
+    + destruct (Z.eqb_spec (s_type s) TSymlink) as [E3|E3]; [|reflexivity].
+      rewrite E3. cbn. rewrite Ilen. apply Z.eqb_refl.
+Qed.
+
+(** ---------- the constructors establish the invariant ---------- *)
+Definition wf_init (i : init) : Prop :=
+  match i with
+  | INew t => - two31 <= t < two31
+  | IFile b total => wf_optdata b /\ in_u64 total
+  | IFileStat b total mode t => wf_optdata b /\ in_u64 total /\ wf_gtime t
+  | IFolder => True
+  | IFolderStat mode t => wf_gtime t
+  | IWrap b => wf_optdata b
+  | ISymlink b => blen b < two64
+  | IHamt b fanout hashType mode t => wf_optdata b /\ in_u64 fanout /\ in_u64 hashType /\ wf_gtime t
+  end.
+
+Lemma olen_range : forall b, wf_optdata b -> in_u64 (match b with Some l => blen l | None => 0 end).
+Proof.
+  intros [l|] H; unfold in_u64; cbn in *; [pose proof (blen_nonneg l); lia|unfold two64; lia].
+Qed.
+
+Lemma typed_facts : forall t, - two31 <= t < two31 ->
+  wf_data (typed t) /\ initialized (typed t) = true /\ get_type (typed t) = t /\
+  perm_of (typed t) = 0 /\ extended_mode (typed t) = 0 /\ mod_time (typed t) = zero_time /\
+  get_data (typed t) = [] /\ d_blocksizes (typed t) = [] /\ get_filesize (typed t) = 0.
+Proof.
+  intros t H. unfold typed. split; [apply wf_with_type; [apply wf_empty|exact H]|].
+  repeat split.
+Qed.
+
+(** the part of the invariant that [add_stat] establishes *)
+Lemma add_stat_facts : forall mode t d, wf_data d -> initialized d = true -> wf_gtime t ->
+  d_mode d = None -> d_mtime d = None ->
+  let d' := add_stat mode t d in
+  wf_data d' /\ initialized d' = true /\ get_type d' = get_type d /\
+  spread (perm_of d') = Z.land mode perm_mask /\ extended_mode d' = 0 /\
+  mod_time d' = (if is_zero t then zero_time else t) /\
+  get_data d' = get_data d /\ d_blocksizes d' = d_blocksizes d /\ get_filesize d' = get_filesize d.
+Proof.
+  intros mode t d Hwf Hin [Ws Wn] Hm Ht. cbv zeta. unfold add_stat.
+  set (d1 := if mode =? 0 then d else with_mode d (Some (ModePermsToUnixPerms mode))).
+  pose proof (unix_perms_range mode) as R.
+  assert (P1 : wf_data d1 /\ initialized d1 = true /\ get_type d1 = get_type d /\
+               spread (perm_of d1) = Z.land mode perm_mask /\ extended_mode d1 = 0 /\
+               mod_time d1 = zero_time /\ d_mtime d1 = None /\
+               get_data d1 = get_data d /\ d_blocksizes d1 = d_blocksizes d /\
+               get_filesize d1 = get_filesize d).
+  { unfold d1. destruct (Z.eqb_spec mode 0) as [->|Hne].
+    - dd d. cbn in Hm, Ht. subst mo mt.
+      split; [exact Hwf|]. split; [exact Hin|]. repeat split.
+    - dd d. cbn in Hm, Ht. subst mo mt.
+      split; [apply (wf_with_mode _ (Some _)); [exact Hwf|]; cbn [in_opt]; unfold two32; lia|].
+      split; [exact Hin|]. split; [reflexivity|].
+      split; [unfold perm_of; cbn [with_mode get_mode d_mode opt0]; apply spread_unix_of_mode|].
+      split; [|repeat split].
+      unfold extended_mode. cbn [with_mode get_mode d_mode opt0].
+      assert (E : Z.land (ModePermsToUnixPerms mode) ext_mask = 0).
+      { rewrite <- (land_small _ R), <- Z.land_assoc. change (Z.land 4095 ext_mask) with 0.
+        apply Z.land_0_r. }
+      rewrite E. reflexivity. }
+  destruct P1 as (Q1 & Q2 & Q3 & Q4 & Q5 & Q6 & Q7 & Q8 & Q9 & Q10).
+  destruct (is_zero t) eqn:Ez.
+  - split; [exact Q1|]. split; [exact Q2|]. repeat split; assumption.
+  - match goal with |- context [with_mtime d1 ?x] => destruct (frame_mtime d1 x) as (F1 & F2 & F3 & F4 & F5 & F6) end.
+    split.
+    { apply wf_with_mtime; [exact Q1|]. split; cbn [t_sec t_nanos in_opt]; [exact Ws|].
+      destruct (0 <? snd t); cbn [in_opt]; [unfold two32; lia|exact I]. }
+    split.
+    { clear - Q2. dd d1. unfold initialized in *. cbn in *. rewrite andb_true_r.
+      apply andb_true_iff in Q2. tauto. }
+    split; [congruence|]. split; [congruence|]. split; [congruence|].
+    split.
+    { pose proof (mod_time_set t d1 (conj Ws Wn)) as MT. unfold set_mod_time in MT.
+      rewrite Ez in MT. exact MT. }
+    split; [congruence|]. split; congruence.
+Qed.
+
+Lemma init_data_inv : forall i, wf_init i -> inv (init_data i) (spec_init i).
+Proof.
+  intros i W. destruct i as [t|b total|b total mode t| |mode t|b|b|b fanout hashType mode t];
+    cbn [init_data spec_init wf_init] in *.
+  - (* INew *)
+    destruct (typed_facts t W) as (T1 & T2 & T3 & T4 & T5 & T6 & T7 & T8 & T9).
+    unfold new_fsnode. fold (typed t).
+    destruct (frame_filesize (typed t) (Some (to_u64 (get_filesize (typed t) + 0)))) as (G1 & G2 & G3 & G4 & G5 & G6 & G7).
+    fold (update_filesize 0 (typed t)) in *.
+    constructor; cbn [s_type s_perm s_ext s_time s_datalen s_blocks s_sized].
+    + apply wf_update_filesize. exact T1.
+    + unfold update_filesize. rewrite init_with_filesize. exact T2.
+    + congruence.
+    + rewrite G2, T4. reflexivity.
+    + congruence.
+    + congruence.
+    + rewrite G5, T7. reflexivity.
+    + congruence.
+    + intros _. rewrite G7, T9. reflexivity.
+  - (* IFile *)
+    destruct W as [Wb Wt].
+    destruct (typed_facts TFile ltac:(unfold two31, TFile; lia)) as (T1 & T2 & T3 & T4 & T5 & T6 & T7 & T8 & T9).
+    destruct (frame_data (typed TFile) b) as (F1 & F2 & F3 & F4 & F5 & F6 & F7).
+    destruct (frame_filesize (with_data (typed TFile) b) (Some total)) as (G1 & G2 & G3 & G4 & G5 & G6 & G7).
+    constructor; cbn [s_type s_perm s_ext s_time s_datalen s_blocks s_sized].
+    + apply wf_with_filesize; [apply wf_with_data; assumption|exact Wt].
+    + rewrite init_with_filesize, init_with_data. exact T2.
+    + congruence.
+    + rewrite G2, F2, T4. reflexivity.
+    + congruence.
+    + congruence.
+    + rewrite G5, F7. destruct b; reflexivity.
+    + congruence.
+    + intro Hs. apply Z.eqb_eq in Hs. rewrite G7. cbn [opt0 sum_list fold_right].
+      rewrite Z.add_0_r, <- Hs. symmetry. apply to_u64_nonneg. exact Wt.
+  - (* IFileStat *)
+    destruct W as (Wb & Wt & Wtm).
+    destruct (typed_facts TFile ltac:(unfold two31, TFile; lia)) as (T1 & T2 & T3 & T4 & T5 & T6 & T7 & T8 & T9).
+    destruct (frame_data (typed TFile) b) as (F1 & F2 & F3 & F4 & F5 & F6 & F7).
+    destruct (frame_filesize (with_data (typed TFile) b) (Some total)) as (G1 & G2 & G3 & G4 & G5 & G6 & G7).
+    set (d0 := with_filesize (with_data (typed TFile) b) (Some total)) in *.
+    assert (W0 : wf_data d0) by (apply wf_with_filesize; [apply wf_with_data; assumption|exact Wt]).
+    assert (I0 : initialized d0 = true) by (unfold d0; rewrite init_with_filesize, init_with_data; exact T2).
+    destruct (add_stat_facts mode t d0 W0 I0 Wtm eq_refl eq_refl) as (A1 & A2 & A3 & A4 & A5 & A6 & A7 & A8 & A9).
+    constructor; cbn [s_type s_perm s_ext s_time s_datalen s_blocks s_sized].
+    + exact A1.
+    + exact A2.
+    + congruence.
+    + exact A4.
+    + exact A5.
+    + exact A6.
+    + rewrite A7, G5, F7. destruct b; reflexivity.
+    + congruence.
+    + intro Hs. apply Z.eqb_eq in Hs. rewrite A9, G7. cbn [opt0 sum_list fold_right].
+      rewrite Z.add_0_r, <- Hs. symmetry. apply to_u64_nonneg. exact Wt.
+  - (* IFolder *)
+    destruct (typed_facts TDirectory ltac:(unfold two31, TDirectory; lia)) as (T1 & T2 & T3 & T4 & T5 & T6 & T7 & T8 & T9).
+    constructor; cbn [s_type s_perm s_ext s_time s_datalen s_blocks s_sized].
+    + exact T1.
+    + exact T2.
+    + exact T3.
+    + rewrite T4. reflexivity.
+    + exact T5.
+    + exact T6.
+    + rewrite T7. reflexivity.
+    + exact T8.
+    + intros _. exact T9.
+  - (* IFolderStat *)
+    destruct (typed_facts TDirectory ltac:(unfold two31, TDirectory; lia)) as (T1 & T2 & T3 & T4 & T5 & T6 & T7 & T8 & T9).
+    destruct (add_stat_facts mode t (typed TDirectory) T1 T2 W eq_refl eq_refl) as (A1 & A2 & A3 & A4 & A5 & A6 & A7 & A8 & A9).
+    constructor; cbn [s_type s_perm s_ext s_time s_datalen s_blocks s_sized].
+    + exact A1.
+    + exact A2.
+    + congruence.
+    + exact A4.
+    + exact A5.
+    + exact A6.
+    + rewrite A7, T7. reflexivity.
+    + congruence.
+    + intros _. rewrite A9. exact T9.
+  - (* IWrap *)
+    destruct (typed_facts TRaw ltac:(unfold two31, TRaw; lia)) as (T1 & T2 & T3 & T4 & T5 & T6 & T7 & T8 & T9).
+    destruct (frame_data (typed TRaw) b) as (F1 & F2 & F3 & F4 & F5 & F6 & F7).
+    match goal with |- inv (with_filesize _ ?x) _ =>
+      destruct (frame_filesize (with_data (typed TRaw) b) x) as (G1 & G2 & G3 & G4 & G5 & G6 & G7) end.
+    constructor; cbn [s_type s_perm s_ext s_time s_datalen s_blocks s_sized].
+    + apply wf_with_filesize; [apply wf_with_data; assumption|]. cbn [in_opt]. apply olen_range. exact W.
+    + rewrite init_with_filesize, init_with_data. exact T2.
+    + congruence.
+    + rewrite G2, F2, T4. reflexivity.
+    + congruence.
+    + congruence.
+    + rewrite G5, F7. destruct b; reflexivity.
+    + congruence.
+    + intros _. rewrite G7. cbn [opt0 sum_list fold_right]. rewrite Z.add_0_r.
+      symmetry. apply to_u64_nonneg. apply olen_range. exact W.
+  - (* ISymlink *)
+    destruct (typed_facts TSymlink ltac:(unfold two31, TSymlink; lia)) as (T1 & T2 & T3 & T4 & T5 & T6 & T7 & T8 & T9).
+    destruct (frame_data (typed TSymlink) (Some b)) as (F1 & F2 & F3 & F4 & F5 & F6 & F7).
+    constructor; cbn [s_type s_perm s_ext s_time s_datalen s_blocks s_sized].
+    + apply wf_with_data; [exact T1|exact W].
+    + rewrite init_with_data. exact T2.
+    + congruence.
+    + rewrite F2, T4. reflexivity.
+    + congruence.
+    + congruence.
+    + rewrite F7. reflexivity.
+    + congruence.
+    + intro Hs. discriminate Hs.
+  - (* IHamt *)
+    destruct W as (Wb & Wf & Wh & Wtm).
+    destruct (typed_facts THAMTShard ltac:(unfold two31, THAMTShard; lia)) as (T1 & T2 & T3 & T4 & T5 & T6 & T7 & T8 & T9).
+    destruct (frame_data (typed THAMTShard) b) as (F1 & F2 & F3 & F4 & F5 & F6 & F7).
+    set (d0 := with_hash_fanout (with_data (typed THAMTShard) b) (Some hashType) (Some fanout)) in *.
+    assert (W0 : wf_data d0) by (apply wf_with_hash_fanout; [apply wf_with_data; assumption|exact Wh|exact Wf]).
+    assert (I0 : initialized d0 = true) by (unfold d0; rewrite init_with_hash_fanout, init_with_data; exact T2).
+    destruct (add_stat_facts mode t d0 W0 I0 Wtm eq_refl eq_refl) as (A1 & A2 & A3 & A4 & A5 & A6 & A7 & A8 & A9).
+    constructor; cbn [s_type s_perm s_ext s_time s_datalen s_blocks s_sized].
+    + exact A1.
+    + exact A2.
+    + rewrite A3. reflexivity.
+    + exact A4.
+    + exact A5.
+    + exact A6.
+    + rewrite A7. unfold d0. destruct b; reflexivity.
+    + rewrite A8. reflexivity.
+    + intro Hs. discriminate Hs.
+Qed.
+
+(** the static constructors' bytes parse back to exactly the message built *)
+Lemma init_node_data : forall i, wf_init i -> init_node i = Some (init_data i).
+Proof.
+  intros i W. pose proof (init_data_inv i W) as [Iwf Iinit _ _ _ _ _ _ _].
+  destruct i; cbn [init_node]; try reflexivity;
+    unfold encode_data; rewrite Iinit;
+    (apply decode_encode; [exact Iwf|unfold encode_data; rewrite Iinit; reflexivity]).
+Qed.
+
+(** ================================================================
+    Main theorem: every history, through every serialisation
+    ================================================================ *)
+Theorem history_refines : forall i ops s,
+  wf_init i -> Forall wf_op ops -> spec_run (spec_init i) ops = Some s ->
+  exists d0 d bs,
+    init_node i = Some d0 /\ run d0 ops = Some d /\
+    meets s (view_of d) = true /\
+    encode_data d = Some bs /\ decode_data bs = Some d.
+Proof.
+  intros i ops s Wi Wo E.
+  destruct (run_inv ops (init_data i) (spec_init i) s (init_data_inv i Wi) Wo E) as (d & R & I).
+  exists (init_data i), d, (emit (data_fields d)).
+  split; [apply init_node_data; exact Wi|]. split; [exact R|].
+  split; [apply inv_meets; exact I|].
+  destruct I as [Iwf Iinit _ _ _ _ _ _ _].
+  assert (Enc : encode_data d = Some (emit (data_fields d))) by (unfold encode_data; rewrite Iinit; reflexivity).
+  split; [exact Enc|]. apply decode_encode; assumption.
+Qed.
+
+(** single-step corollaries in the words of the property *)
+Lemma node_wf_of_history : forall i ops s d0 d,
+  wf_init i -> Forall wf_op ops -> spec_run (spec_init i) ops = Some s ->
+  init_node i = Some d0 -> run d0 ops = Some d -> inv d s.
+Proof.
+  intros i ops s d0 d Wi Wo E E0 R.
+  rewrite (init_node_data i Wi) in E0. injection E0 as <-.
+  destruct (run_inv ops _ _ s (init_data_inv i Wi) Wo E) as (d' & R' & I). congruence.
+Qed.
+
+(** Mode after SetMode and a serialisation: same permission bits *)
+Theorem mode_after_parse : forall d m bs,
+  wf_data d -> initialized d = true ->
+  encode_data (set_mode m d) = Some bs ->
+  exists d', decode_data bs = Some d' /\
+             Z.land (mode_of d') perm_mask = Z.land m perm_mask /\
+             extended_mode d' = extended_mode d.
+Proof.
+  intros d m bs Hwf Hin E. exists (set_mode m d).
+  split; [apply decode_encode; [apply wf_set_mode_unix; exact Hwf|exact E]|].
+  split.
+  - rewrite mode_of_perm_bits. unfold set_mode. rewrite set_mode_unix_perm. apply spread_unix_of_mode.
+  - unfold set_mode. apply set_mode_unix_ext.
+Qed.
+
+(** the extended bits survive both permission setters, and setting them does
+    not disturb the permissions *)
+Theorem extended_preserved : forall d u x,
+  extended_mode (set_mode_unix u d) = extended_mode d /\
+  extended_mode (set_extended_mode x d) = Z.land x 1048575 /\
+  mode_of (set_extended_mode x d) = mode_of d.
+Proof.
+  intros d u x. split; [apply set_mode_unix_ext|]. split; [apply set_ext_ext|].
+  unfold mode_of. pose proof (set_ext_perm x d) as P. unfold perm_of in P. rewrite P.
+  destruct (frame_set_ext x d) as (F1 & _). rewrite F1. reflexivity.
+Qed.
+
+(** ModTime after SetModTime and a serialisation: the same instant; zero = unset *)
+Theorem mtime_roundtrip : forall d t bs,
+  wf_data d -> initialized d = true -> wf_gtime t ->
+  encode_data (set_mod_time t d) = Some bs ->
+  exists d', decode_data bs = Some d' /\
+             mod_time d' = (if is_zero t then zero_time else t) /\
+             is_zero (mod_time d') = is_zero t /\
+             (is_zero t = true <-> d_mtime d' = None).
+Proof.
+  intros d t bs Hwf Hin Wt E. exists (set_mod_time t d).
+  assert (W' : wf_data (set_mod_time t d)).
+  { unfold set_mod_time. destruct Wt as [Ws Wn]. destruct (is_zero t).
+    - apply wf_with_mtime; [exact Hwf|exact I].
+    - apply wf_with_mtime; [exact Hwf|]. split; cbn [t_sec t_nanos in_opt]; [exact Ws|].
+      destruct (0 <? snd t); cbn [in_opt]; [unfold two32; lia|exact I]. }
+  split; [apply decode_encode; [exact W'|exact E]|].
+  split; [apply mod_time_set; exact Wt|].
+  split; [apply mod_time_zero_iff; exact Wt|].
+  unfold set_mod_time. destruct (is_zero t); dd d; cbn [with_mtime d_mtime]; split; intro H;
+    try reflexivity; try discriminate.
+Qed.
+
+Lemma spec_step_type : forall s o s', spec_step s o = Some s' -> s_type s' = s_type s.
+Proof.
+  intros s o s' E. destruct o as [b|x|i| |diff|m|u|x|t| ]; cbn [spec_step] in E;
+    try (injection E as <-; reflexivity).
+  destruct (nth_error (s_blocks s) i); [injection E as <-; reflexivity|discriminate].
+Qed.
+
+Lemma spec_run_type : forall ops s s', spec_run s ops = Some s' -> s_type s' = s_type s.
+Proof.
+  induction ops as [|o ops IH]; intros s s' E; cbn [spec_run] in E.
+  - injection E as <-. reflexivity.
+  - destruct (spec_step s o) as [s1|] eqn:E1; [|discriminate].
+    rewrite (IH _ _ E). apply (spec_step_type _ _ _ E1).
+Qed.
+
+(** FileSize after any content history (with serialisations anywhere in it) *)
+Theorem size_accessors : forall t ops s d,
+  - two31 <= t < two31 -> Forall wf_op ops ->
+  spec_run (spec_init (INew t)) ops = Some s -> run (new_fsnode t) ops = Some d ->
+  (s_sized s = true -> (t = TFile \/ t = TRaw) ->
+     file_size d = to_u64 (s_datalen s + sum_list (s_blocks s))) /\
+  (t = TSymlink -> file_size d = s_datalen s) /\
+  s_datalen s = blen (get_data d) /\ s_blocks s = d_blocksizes d.
+Proof.
+  intros t ops s d Wt Wo E R.
+  pose proof (node_wf_of_history (INew t) ops s (new_fsnode t) d Wt Wo E eq_refl R) as I.
+  destruct I as [Iwf Iinit Ity Iperm Iext Itime Ilen Ibl Isz].
+  pose proof (spec_run_type _ _ _ E) as Ts. cbn [spec_init s_type] in Ts.
+  unfold file_size, size_of. rewrite Ity, Ts.
+  split; [|split; [|split; [symmetry; exact Ilen|symmetry; exact Ibl]]].
+  - intros Hs [->| ->]; cbn; exact (Isz Hs).
+  - intros ->. cbn. exact Ilen.
 Qed.
